@@ -1,4 +1,4 @@
-import StepModel.P21.FloatShape
+import StepModel.P21.FloatArith
 /-! The text layer of "`%.<p>G` of a double converts back to it" for the executable float model (C09, final proof round).
 
 `Dbl.readsBack (Dbl.fmtG p bits) bits` involves the `%G` layout (scientific / fixed with integer part / fixed `0.000ddd`), the
@@ -202,12 +202,11 @@ theorem fmtFinite_parse (p : Nat) (hp : 1 ≤ p) (sg : List Byte) (hsg : sg = []
 
 /-- **What is left of "`%.<p>G` converts back" once the text is gone** — an arithmetic statement about `Dbl.sigDigits` and
     `Dbl.ofDecimal` only: for the significand `m` and binary exponent `e2` of the (finite, non-zero) double `bits`, the `p`
-    significant digits `q · 10^(x-p+1)` that `sigDigits` computes for `m · 2^e2` form a `p`-digit number, and with any number `k`
+    significant digits `q · 10^(x-p+1)` that `sigDigits` computes for `m · 2^e2` (a `p`-digit number: `sigDigits_digits`), with any number `k`
     of trailing zeros removed (`q = M · 10^k`) the decimal `M · 10^(x-p+1+k)` is rounded back to `bits` by `ofDecimal`.
     For `p = 17` this is the classical "17 significant digits determine a binary64" (10^16 > 2^53) stated for the model's own
     `ofRatio`. -/
 def SigDigitsReadBack (p : Nat) (bits : Nat) : Prop :=
-  (Nat.toDigits 10 (finSig p (mantOf bits) (expOf bits)).1).length = p ∧
   ∀ M k : Nat, (finSig p (mantOf bits) (expOf bits)).1 = M * 10 ^ k →
     Dbl.ofDecimal ⟨bits / Dbl.signBit % 2 == 1, M, (finSig p (mantOf bits) (expOf bits)).2 - ((p : Int) - 1) + (k : Int)⟩ = some bits
 
@@ -240,7 +239,25 @@ theorem dbl_fmtG_readsBack (p : Nat) (hp : 1 ≤ p) (bits : Nat) (hlt : bits < 2
     simp
     exact this.symm
   · have hz' : (bits / Dbl.pow2 52 % 2048 == 0 && bits % Dbl.pow2 52 == 0) = false := by simpa using hz
-    obtain ⟨hlen, hrb⟩ := harith hz'
+    have hrb := harith hz'
+    have hlen : (Nat.toDigits 10 (finSig p (mantOf bits) (expOf bits)).1).length = p := by
+      have hm : 0 < mantOf bits := by
+        unfold mantOf
+        have hp52 : 0 < Dbl.pow2 52 := Nat.pow_pos (by decide)
+        split
+        · rename_i hbe
+          simp only [hbe, Bool.true_and] at hz'
+          have : bits % Dbl.pow2 52 ≠ 0 := by simpa using hz'
+          omega
+        · omega
+      unfold finSig
+      apply sigDigits_digits p _ _ hp
+      · split
+        · exact Nat.mul_pos hm (Nat.pow_pos (by decide))
+        · exact hm
+      · split
+        · decide
+        · exact Nat.pow_pos (by decide)
     simp only [hz', Bool.false_eq_true, if_false]
     obtain ⟨M, k, h1, h2⟩ := fmtFinite_parse p hp (if (bits / Dbl.signBit % 2 == 1) = true then [45] else []) (hsg _)
       (mantOf bits) (expOf bits) hlen
